@@ -179,8 +179,15 @@ class RegexCompiler:
                 (0xFEFF, 0xFEFF),
             ]
         elif ch == "S":
-            # Non-whitespace - simplified
-            return [(ord("!"), ord("~"))]  # Printable ASCII
+            # Non-whitespace: the complement of \s
+            complement = []
+            next_start = 0
+            for start, end in sorted(self._expand_shorthand("s")):
+                if start > next_start:
+                    complement.append((next_start, start - 1))
+                next_start = end + 1
+            complement.append((next_start, 0x10FFFF))
+            return complement
         else:
             raise RegExpError(f"Unknown shorthand: \\{ch}")
 
